@@ -13,6 +13,18 @@ package providers
 //@ stable ProviderData.GroupsClaim ProviderData.AllowUnverifiedEmail ProviderData.ProfileURL ProviderData.SkipClaimsFromProfileURL
 //@ stable ProviderData.CodeChallengeMethod ProviderData.LoginURL ProviderData.RedeemURL ProviderData.ClientID
 //@ nonnil OIDCProvider.ProviderData
+//@ stable MicrosoftEntraIDProvider.* KeycloakOIDCProvider.OIDCProvider ADFSProvider.OIDCProvider ADFSProvider.oidcRefreshFunc
+//@ stable GitLabProvider.OIDCProvider GitLabProvider.oidcRefreshFunc
+
+// the fields declared stable above are written by constructors only
+//@ prop C04 C05 C14
+//@ scan[oidc-provider-fields-written-by-its-constructor] field-writers OIDCProvider.* providers.NewOIDCProvider
+//@ scan[entra-provider-fields-written-by-its-constructor] field-writers MicrosoftEntraIDProvider.* providers.NewMicrosoftEntraIDProvider
+//@ scan[keycloak-oidc-embedded-provider-written-by-its-constructor] field-writers KeycloakOIDCProvider.OIDCProvider providers.NewKeycloakOIDCProvider
+//@ scan[adfs-provider-fields-written-by-its-constructor] field-writers ADFSProvider.* providers.NewADFSProvider
+//@ scan[gitlab-provider-delegates-written-by-its-constructor] field-writers GitLabProvider.OIDCProvider providers.NewGitLabProvider
+//@ scan[gitlab-provider-refresh-delegate-written-by-its-constructor] field-writers GitLabProvider.oidcRefreshFunc providers.NewGitLabProvider
+//@ scan[verifier-written-while-provider-data-is-built] field-writers ProviderData.Verifier providers.newProviderDataFromConfig
 
 // ------------------------------------------------------------------ C08: group authorisation
 //@ func (*ProviderData).Authorize
@@ -138,3 +150,42 @@ package providers
 //@     && recv(setAllowedGroups).SkipClaimsFromProfileURL == providerConfig.SkipClaimsFromProfileURL
 //@     && arg(setAllowedGroups, 1) == providerConfig.AllowedGroups
 //@ at call compileLoginParams assert[verifier-stored-in-the-provider-data] called(NewProviderVerifier) ==> recv(compileLoginParams).Verifier == ret(Verifier)
+
+// ------------------------------------------------------------------ C04 / C05 / C14: providers built on the OIDC provider delegate to it
+//@ func (*MicrosoftEntraIDProvider).ValidateSession
+//@ prop C05 C04 C14
+//@ ensures[valid-only-if-the-oidc-validation-succeeds] result ==> called(ValidateSession) && ret(ValidateSession)
+//@     && arg(ValidateSession, 0) == old(p.OIDCProvider) && arg(ValidateSession, 2) == session
+//@ ensures[unreadable-tenant-is-invalid] ret1(getTenantFromToken) != nil ==> !result
+
+//@ func (*MicrosoftEntraIDProvider).Redeem
+//@ prop C04 C05 C14
+//@ ensures[session-only-from-the-oidc-redemption-or-the-federated-one] ret0 != nil ==>
+//@     (called(Redeem) && ret0 == ret0(Redeem) && ret1 == ret1(Redeem) && arg(Redeem, 0) == old(p.OIDCProvider) && arg(Redeem, 3) == code && arg(Redeem, 4) == codeVerifier)
+//@     || (called(redeemWithFederatedToken) && ret0 == ret0(redeemWithFederatedToken) && ret1 == ret1(redeemWithFederatedToken))
+
+//@ func (*MicrosoftEntraIDProvider).redeemWithFederatedToken
+//@ prop C04 C05 C14
+//@ ensures[session-only-from-oidc-session-creation] ret0 != nil ==> called(createSession) && ret0 == ret0(createSession) && ret1 == ret1(createSession)
+//@     && arg(createSession, 0) == old(p.OIDCProvider) && !arg(createSession, 3)
+
+//@ func (*KeycloakOIDCProvider).CreateSessionFromToken
+//@ prop C04 C14
+//@ ensures[session-only-from-the-oidc-bearer-verification] ret0 != nil ==> called(CreateSessionFromToken) && ret0 == ret0(CreateSessionFromToken)
+//@     && ret1(CreateSessionFromToken) == nil && arg(CreateSessionFromToken, 0) == old(p.OIDCProvider) && arg(CreateSessionFromToken, 2) == token
+
+//@ func (*KeycloakOIDCProvider).RefreshSession
+//@ prop C04 C14
+//@ ensures[refreshed-only-if-the-oidc-refresh-succeeded] ret0 ==> called(RefreshSession) && ret0(RefreshSession) && arg(RefreshSession, 2) == s
+//@     && arg(RefreshSession, 0) == old(p.OIDCProvider)
+//@ ensures[refresh-error-propagates] ret1(RefreshSession) != nil ==> ret1 == ret1(RefreshSession) && ret0 == ret0(RefreshSession)
+
+//@ func (*ADFSProvider).RefreshSession
+//@ prop C04 C14
+//@ ensures[refreshed-iff-the-oidc-refresh-says-so] called(oidcRefreshFunc) && ret0 == ret0(oidcRefreshFunc) && arg(oidcRefreshFunc, 1) == s
+//@ ensures[refresh-error-propagates] ret1(oidcRefreshFunc) != nil ==> ret1 == ret1(oidcRefreshFunc)
+
+//@ func (*GitLabProvider).RefreshSession
+//@ prop C04 C14
+//@ ensures[refreshed-iff-the-oidc-refresh-says-so] called(oidcRefreshFunc) && ret0 == ret0(oidcRefreshFunc) && ret1 == ret1(oidcRefreshFunc)
+//@     && arg(oidcRefreshFunc, 1) == s
